@@ -108,10 +108,32 @@ Fixpoint last_recv (tr : trace) (cur : option N) : option N :=
   | st :: tr' => last_recv tr' (match st_snap st with Some sn => Some (sn_recv sn) | None => cur end)
   end.
 
+Fixpoint last_state (tr : trace) (cur : N) : N :=
+  match tr with
+  | [] => cur
+  | st :: tr' => last_state tr' (match st_snap st with Some sn => sn_state sn | None => cur end)
+  end.
+
+(* not judged while the session is in its logon phase (just created: wait_for_logon / logon_sent) *)
 Definition aligned (acts : list act) (tr : trace) : bool :=
   match horizon (numbering acts 1) None with
   | None => true
-  | Some h => match last_recv tr None with Some r => r =? h | None => false end
+  | Some h =>
+    let st := last_state tr 0 in
+    if (st =? 3) || (st =? 5) || (st =? 0) then true
+    else match last_recv tr None with Some r => r =? h | None => false end
+  end.
+
+(* the scenario itself is conformant: the counterparty transmits only after it has sent its Logon on the current
+   connection (messages numbered while disconnected are LOST ones) *)
+Fixpoint scn_conformant (acts : list act) (logged : bool) : bool :=
+  match acts with
+  | [] => true
+  | ASess _ (OStart _ _) :: r => scn_conformant r false
+  | ASess _ ORestart :: r => scn_conformant r false
+  | ALogon :: r => negb logged && scn_conformant r true
+  | AMsg false _ _ :: r => logged && scn_conformant r logged
+  | _ :: r => scn_conformant r logged
   end.
 
 Definition delivered (sc : schema) (acts : list act) (tr : trace) : bool :=
@@ -119,7 +141,7 @@ Definition delivered (sc : schema) (acts : list act) (tr : trace) : bool :=
   forallb (fun x => match deliveries (nu_type x) (nu_seq x) evs with [] => false | _ => true end) (owed sc acts).
 
 Definition c20_ok (sc : schema) (acts : list act) (ops : list op) (tr : trace) : bool :=
-  alive ops tr && delivered sc acts tr && aligned acts tr.
+  negb (scn_conformant acts false) || (alive ops tr && delivered sc acts tr && aligned acts tr).
 
 (* exactly once, never PossDup *)
 Definition c20_exact (sc : schema) (acts : list act) (tr : trace) : bool :=
